@@ -9,7 +9,7 @@ git -C $R apply "$dir/patch.diff" || { echo "patch does not apply"; exit 2; }
 trap 'git -C $R checkout -- . ; rm -rf replays.ben' EXIT
 bad=0
 for p in $props; do
-  out=$(./check $p quick --replays replays.ben --evidence build/ben.$p.json 2>&1); rc=$?
+  out=$(timeout 1500 ./check $p quick --replays replays.ben --evidence build/ben.$p.json 2>&1); rc=$?
   if [ $rc -ne 0 ]; then bad=1; echo "ALARM $p exit=$rc"; echo "$out" | grep -E "VIOLATION|oracle|error|build" | head -6; mkdir -p build/ben-replays; cp replays.ben/*.json build/ben-replays/ 2>/dev/null; else echo "ok $p"; fi
 done
 exit $bad
